@@ -311,6 +311,7 @@ class PoolSeeding(Lemma):
                 it.hooks[fq] = lambda it_, f, b: None
             CP = "rpylib.process.coupling.couplingmarkovchain:CouplingMarkovChain"
             it.hooks[CP + ".simulate_one_path_with_coupling"] = lambda it_, f, b: ev(("draw", "coupled")) or "p"
+            it.hooks[CP + ".pre_computation"] = lambda it_, f, b: ev(("draw", "pre_computation"))
             cfg = vc.obj(CF + "ConfigurationMultiLevel", nb_of_processes=nproc, control_variates=vc.obj("rpylib.product.product:NoControlVariates"), seed=vc.int("seed"))
             pm = vc.obj("rpylib.montecarlo.path:MLMCPath")
             stats = vc.obj("rpylib.montecarlo.statistic.statistic:MLMCStatistics", mc_statistics=[None, None])
@@ -323,6 +324,16 @@ class PoolSeeding(Lemma):
         vc.check(nm + "::two-workers-started", len(starts) == 2)
         vc.check(nm + "::every-worker-seeds-once-before-the-first-task", len(worker_seeds) == 2 and all(i < first_task for i, e in enumerate(log) if e in worker_seeds))
         vc.check(nm + "::workers-seed-with-the-multiprocessing-flag-set", all(bool(e[1]) is True and not is_sym(e[1]) for e in worker_seeds))
+        # "pre-drawn Brownian increments and jump counts are consumed exactly once": whatever the parent process drew ahead is
+        # COPIED into every worker (and, with a pickling pool, into every task), so a sample simulated by a worker must be built
+        # from variates drawn in that worker, after its seeding: every task draws its own pre-computed variates before its path
+        tasks = [i for i, e in enumerate(log) if e[0] == "task"]
+        ok = len(tasks) >= 2
+        for n_, ti in enumerate(tasks):
+            seg = log[ti + 1: (tasks[n_ + 1] if n_ + 1 < len(tasks) else len(log))]
+            draws = [e for e in seg if e[0] == "draw"]
+            ok = ok and len(draws) >= 2 and draws[0] == ("draw", "pre_computation") and draws[1][1] in ("simulate_one_path", "coupled")
+        vc.check(nm + "::every-task-draws-its-own-pre-computed-variates-before-its-path", ok)
 
     def replay(self, model, clause, which):
         bad, info = RepeatabilityBattery.pool(seed=5, model="hem")
